@@ -17,7 +17,7 @@ ASSUMPTIONS = cc.ASSUMPTIONS_CORE
 
 
 def extra(tier, rng):
-    return []
+    return cc.exotic_cases()
 
 
 def plan(tier, seed):
